@@ -90,10 +90,15 @@ class Actors:
         bases = tuple(self.make_class(b) for b in spec['bases'])
         if not bases:
             bases = (self.CtrlRoot,) if spec.get('ctrl') else (self.Root,)
+        ns = {}
+        if spec.get('falsy') == 'bool':
+            ns['__bool__'] = lambda self: False
+        elif spec.get('falsy') == 'len':
+            ns['__len__'] = lambda self: 0
         try:
-            cls = type(f'K{i}', bases, {})
+            cls = type(f'K{i}', bases, dict(ns))
         except TypeError:
-            cls = type(f'K{i}', (bases[0],), {})
+            cls = type(f'K{i}', (bases[0],), dict(ns))
         deco = spec.get('deco')
         if deco is not None:
             cls = self.desper.event_handler(*deco.get('names', []),
@@ -550,6 +555,7 @@ class Interp:
             return 'skip'
         r = self.call(lambda: self.w.delete_entity(eid, immediate=True),
                       expect_exc=(KeyError,),
+                      owner=('C01', 'C05') if eid in self.dead else ('C01',),
                       what=f'delete_entity({eid!r}, immediate)')
         groups = []
         if eid not in self.ents:
@@ -1226,6 +1232,9 @@ def gen_config(prop, rng):
             bases = sorted(rng.sample(range(i), k), reverse=True)
         deco = rng.choice(DECOS[1:]) if rng.random() < handler_p else None
         spec = {'bases': bases, 'deco': deco}
+        if rng.random() < .12:
+            # container-like components that are falsy when queried
+            spec['falsy'] = rng.choice(['bool', 'len'])
         if not bases and handler_p and rng.random() < .2:
             spec['ctrl'] = True
         if bases and prop in ('C01', 'C06') and rng.random() < .15:
